@@ -15,6 +15,7 @@ well-formedness `WF`, so reap is part of the induction.
 -/
 import RqModel.Lemmas.SnapCatReap
 import RqModel.Gen.SinkShape
+import RqModel.Gen.PlanShapes
 namespace C09
 open RqModel.SnapFS RqModel.SnapCat
 
@@ -142,6 +143,13 @@ theorem sink_shape_from_source :
 /-- `COp` enumerates every mutator of FULL_NEEDED: in the non-test sources nothing calls
 SetDueNext with an argument other than Full; the only way down is the sink's compare-and-clear. -/
 theorem requirement_mutators_pinned : RqModel.Gen.SinkShape.setDueNextNonFullCallers = [] := by decide
+
+/-- `catalog_inv` admits only COMPLETED reaps; a crash inside one is C07's, whose theorems need the
+plan on disk before the first removal. That holds on every path of reapInternal, the remove-only
+branch included. -/
+theorem reap_plans_before_mutating_from_source :
+    RqModel.Gen.PlanShapes.reapWriteBeforeExecute = some true ∧
+    RqModel.Gen.PlanShapes.reapExecuteSites = ["resumes-plan-read-from-file", "after-plan-written"] := by decide
 
 /-! ### non-vacuity: an admissible sequence with a failed sink, an incremental and a crash -/
 
